@@ -1010,6 +1010,7 @@ char * SCPI_dtostre(double __val, char * __s, size_t __ssize, unsigned char __pr
     int sign = SCPIDEFINE_signbit(__val);
     char * s = buffer;
     int decpt;
+    int last = __prec;
     if (sign) {
         __val = -__val;
         s[0] = '-';
@@ -1045,6 +1046,7 @@ char * SCPI_dtostre(double __val, char * __s, size_t __ssize, unsigned char __pr
         memmove(s + decpt + 1, s, __prec + 1);
         memset(s, '0', decpt + 1);
         s[1] = '.';
+        last = __prec + decpt;
         decpt = 0;
     } else {
         memmove(s + 2, s + 1, __prec + 1);
@@ -1052,7 +1054,7 @@ char * SCPI_dtostre(double __val, char * __s, size_t __ssize, unsigned char __pr
         decpt--;
     }
 
-    s = &s[__prec];
+    s = &s[last];
     while (s[0] == '0') {
         s[0] = 0;
         s--;
